@@ -75,4 +75,10 @@ LongLineFails(o) ==
   LET m == Max(Abs(o.e[1] - o.s[1]), Abs(o.e[2] - o.s[2])) IN
        (IF o.np = m + 1 THEN {} ELSE {"thin_count"})
   \cup (IF o.first = o.s /\ o.last = o.e THEN {} ELSE {"thin_end"})
+  \* nth(k) = the k-th point pulled with next() (<<>> beyond the end), and np - k - 1 points follow
+  \cup (IF \A i \in 1..Len(o.nth) : LET q == o.nth[i] IN q[2] = q[3] /\ q[4] = (IF q[1] < o.np THEN o.np - q[1] - 1 ELSE 0)
+        THEN {} ELSE {"thin_nth"})
+  \* a stroke of width 1 has exactly the points of the thin line, a wider one at least as many
+  \cup (IF \A i \in 1..Len(o.strokes) : IF o.strokes[i][1] = 1 THEN o.strokes[i][2] = o.np ELSE o.strokes[i][2] >= o.np
+        THEN {} ELSE {"long_stroke_count"})
 =============================================================================
